@@ -13,7 +13,7 @@ GEN = [constants.gen]
 TIE = ['Ufw.Tie.RegTable']
 RULE = ("exhaustive small scope: 0-3 areas over a base/size grid (adjacent, overlapping by one atom, reversed order, empty area between "
         "populated ones, areas without write callback, skip-defaults areas, callback-backed areas); 0-4 registers of sizes 1/2/4 atoms at every "
-        "placement incl. straddling area ends and holes, reversed and overlapping registers; defaults inside / outside their constraint.  After "
+        "placement incl. straddling area ends and holes, reversed and overlapping registers; defaults inside / outside their constraint; pairs of areas and of registers 2^31 atoms and more apart, in both orders.  After "
         "every initialisation: result code and index, the initialised flag, each area's first/last/count, complete storage, every register read "
         "back, and the uninitialised answers of the typed/block/iteration/sanitise operations after a failure.  Non-trivial = table with at "
         "least one area and one register; distinct = distinct operation text.")
@@ -93,6 +93,25 @@ def cases(tier, seed):
         flat = [x for o in ops[i:i + 40] for x in o]
         cs.append(Case("i%d" % n, flat, ("init",)))
         n += 1
+    # blocks that lie far apart in the 32-bit address space (distances of 2^31 atoms and more, next to the top):
+    # order and overlap are questions about unsigned addresses, not about signed differences
+    FAR = [0x7ffffff0, 0x80000000, 0x80000010, 0x90000000, 0xc0000000, 0xfffffff0]
+    far_ops = []
+    for lo in (16, 0x100, 0x7ffffff0):
+        for hi in FAR:
+            if hi == lo:
+                continue
+            a, b = min(lo, hi), max(lo, hi)
+            for order in ((a, b), (b, a)):
+                aset = "%d:4:rw:M|%d:4:rw:M" % order
+                for lay in ([(order[0] + 1, 1), (order[1] + 1, 2)], [(a, 1), (b + 2, 2)], [(b, 2), (a + 1, 1)], [(a + 1, 1)], []):
+                    ents = "|".join(entry(rnd, sz, ad, True) for (ad, sz) in lay) or "-"
+                    far_ops.append(["rt.table %d %s %s" % (rnd.randint(0, 1), aset, ents), "rt.init"] +
+                                   ["rt.get %d" % i for i in range(len(lay) + 1)] +
+                                   ["rt.set 0 u16 0012", "rt.bread %d 2" % a, "rt.bread %d 2" % b, "rt.bwrite %d 0012" % b,
+                                    "rt.foreach %d 4 -" % a, "rt.sanitise", "rt.hole %d 1" % a])
+    for i in range(0, len(far_ops), 30):
+        cs.append(Case("far%d" % i, [x for o in far_ops[i:i + 30] for x in o], ("init", "far-apart")))
     # initialising a table a second time after its description was edited in place: nothing of what the first
     # initialisation (and the operations since) left in the structures may show through
     multi = [a for a in AREA_SETS if a.count("|") >= 1]
